@@ -9,7 +9,7 @@ use crate::dictionary::connector::raw_connector::scorer::{
 use crate::dictionary::connector::raw_connector::{RawConnectorBuilder, INVALID_FEATURE_ID};
 use crate::dictionary::connector::{Connector, ConnectorCost, MatrixConnector};
 use crate::dictionary::mapper::ConnIdMapper;
-use crate::errors::Result;
+use crate::errors::{Result, VibratoError};
 use crate::num::U31;
 
 #[derive(Decode, Encode)]
@@ -72,13 +72,12 @@ impl DualConnector {
         right_feat_ids_tmp: &[Vec<U31>],
         left_feat_ids_tmp: &[Vec<U31>],
         matrix_indices: &[usize],
-        feat_template_size: usize,
         scorer: &Scorer,
     ) -> (MatrixConnector, Vec<u16>, Vec<u16>) {
         let generate_feature_map = |feat_ids_tmp: &[Vec<U31>]| {
             let mut conn_id_map = vec![0];
             let mut feats_map = HashMap::new();
-            feats_map.insert(vec![U31::default(); feat_template_size - SIMD_SIZE], 0);
+            feats_map.insert(vec![U31::default(); matrix_indices.len()], 0);
             for row in feat_ids_tmp {
                 let mut feat_ids = vec![];
                 for &idx in matrix_indices {
@@ -114,17 +113,25 @@ impl DualConnector {
         raw_indices: &[usize],
         scorer_builder: &mut ScorerBuilder,
     ) -> (Vec<U31>, Vec<U31>) {
+        // Each connection id owns exactly one SIMD vector. When there are fewer than SIMD_SIZE
+        // feature templates, the remaining lanes are filled with invalid ids.
+        debug_assert!(raw_indices.len() <= SIMD_SIZE);
+        let padding = vec![INVALID_FEATURE_ID; SIMD_SIZE - raw_indices.len()];
         let mut right_feat_ids = vec![U31::default(); raw_indices.len()];
+        right_feat_ids.extend_from_slice(&padding);
         let mut left_feat_ids = vec![U31::default(); raw_indices.len()];
+        left_feat_ids.extend_from_slice(&padding);
         for row in right_feat_ids_tmp {
             for &idx in raw_indices {
                 right_feat_ids.push(*row.get(idx).unwrap_or(&INVALID_FEATURE_ID));
             }
+            right_feat_ids.extend_from_slice(&padding);
         }
         for row in left_feat_ids_tmp {
             for &idx in raw_indices {
                 left_feat_ids.push(*row.get(idx).unwrap_or(&INVALID_FEATURE_ID));
             }
+            left_feat_ids.extend_from_slice(&padding);
         }
         let right_used_feats: HashSet<_> = right_feat_ids.iter().cloned().collect();
         let left_used_feats: HashSet<_> = left_feat_ids.iter().cloned().collect();
@@ -156,6 +163,12 @@ impl DualConnector {
             feat_template_size,
             mut scorer_builder,
         } = RawConnectorBuilder::from_readers(right_rdr, left_rdr, cost_rdr)?;
+        if feat_template_size == 0 {
+            return Err(VibratoError::invalid_format(
+                "bigram.right/left",
+                "No feature is defined for any connection id.",
+            ));
+        }
         let scorer = scorer_builder.build();
 
         // Split features into RawConnector and MatrixConnector
@@ -179,7 +192,6 @@ impl DualConnector {
             &right_feat_ids_tmp,
             &left_feat_ids_tmp,
             &matrix_indices,
-            feat_template_size,
             &scorer,
         );
         let (right_feat_ids, left_feat_ids) = Self::create_raw_connector(
